@@ -47,7 +47,7 @@ describe(
         "minus_lb; keys are copied, compared by content; only Database methods write the mapping; "
         "MDOLinearFunction.normalize uses one mask, ub-lb, lb."
     ),
-    decided=["1.1 sequence composition", "1.2 database key/value spaces", "1.3 lookup dominates compute", "1.4 store post-dominates compute", "1.5 gradient scaling delegation and forwarding", "1.6 key copy/equality", "1.7 who writes Database.__data", "1.8 linear-function normalisation slots", "1.1 rounding per configuration of the options", "1.8 the original linear function is not modified", "1.9 bounds edits invalidate the cached normalisation (rule groups of C02)", "1.10 results are not a reusable buffer"],
+    decided=["1.1 sequence composition", "1.2 database key/value spaces", "1.3 lookup dominates compute", "1.4 store post-dominates compute", "1.5 gradient scaling delegation and forwarding", "1.6 key copy/equality", "1.7 who writes Database.__data", "1.8 linear-function normalisation slots", "1.1 rounding per configuration of the options", "1.8 the original linear function is not modified", "1.9 bounds edits invalidate the cached normalisation (rule groups of C02)", "1.10 results are not a reusable buffer", "1.8 also through objects built from the original coefficients"],
     not_decided=["equality of the returned value with the user's callable", "dtype promotion, NaN values, sparse/dense numerics"],
 )
 
